@@ -1213,5 +1213,172 @@ theorem treeEq_meaning {st st' : Store} {d : Nat} {a b : NodeId} (hte : Go.TreeE
   exact Inv.evalFuel_sim env (st.map preNorm) (st.map midNorm) (permStore_pre_mid st) (storeWF_preNorm hst) fuel
     [] a j j (Inv.permJson_refl j) hj
 
+/-! ## a checker for `NodeSim` on concrete schema objects -/
+
+def listRelB {α β : Type} (r : α → β → Bool) : List α → List β → Bool
+  | [], [] => true
+  | a :: l, b :: l' => r a b && listRelB r l l'
+  | _, _ => false
+
+def optRelB {α β : Type} (r : α → β → Bool) : Option α → Option β → Bool
+  | none, none => true
+  | some a, some b => r a b
+  | _, _ => false
+
+def keyRelB (r : NodeId → NodeId → Bool) (a b : String × NodeId) : Bool := a.1 == b.1 && r a.2 b.2
+
+theorem listRelB_sound {α β : Type} {r : α → β → Bool} {S : α → β → Prop} (h : ∀ a b, r a b = true → S a b) :
+    ∀ {l : List α} {l' : List β}, listRelB r l l' = true → ListRel S l l'
+  | [], [], _ => .nil
+  | a :: l, b :: l', hb => by
+    simp only [listRelB, Bool.and_eq_true] at hb
+    exact .cons (h a b hb.1) (listRelB_sound h hb.2)
+  | [], _ :: _, hb => by cases hb
+  | _ :: _, [], hb => by cases hb
+
+theorem optRelB_sound {α β : Type} {r : α → β → Bool} {S : α → β → Prop} (h : ∀ a b, r a b = true → S a b) :
+    ∀ {o : Option α} {o' : Option β}, optRelB r o o' = true → OptRel S o o'
+  | none, none, _ => trivial
+  | some a, some b, hb => h a b hb
+  | none, some _, hb => by cases hb
+  | some _, none, hb => by cases hb
+
+theorem keyRelB_sound {r : NodeId → NodeId → Bool} (a b : String × NodeId) (h : keyRelB r a b = true) :
+    KeyRel (fun x y => r x y = true) a b := by
+  simp only [keyRelB, Bool.and_eq_true, beq_iff_eq] at h
+  exact h
+
+/-- the schema-valued part of `NodeSim`, decidable ("properties" compared entry by entry) -/
+def childSimB (r : NodeId → NodeId → Bool) (n₁ n₂ : Node) : Bool :=
+  listRelB r (n₁.allOf.getD []) (n₂.allOf.getD []) && optRelB (listRelB r) n₁.anyOf n₂.anyOf &&
+  optRelB (listRelB r) n₁.oneOf n₂.oneOf && optRelB r n₁.not n₂.not && optRelB r n₁.if_ n₂.if_ &&
+  optRelB r n₁.then_ n₂.then_ && optRelB r n₁.else_ n₂.else_ &&
+  listRelB r (n₁.prefixItems.getD []) (n₂.prefixItems.getD []) && optRelB r n₁.items n₂.items &&
+  optRelB (listRelB r) n₁.itemsArray n₂.itemsArray && optRelB r n₁.additionalItems n₂.additionalItems &&
+  optRelB r n₁.contains n₂.contains && optRelB r n₁.unevaluatedItems n₂.unevaluatedItems &&
+  listRelB (keyRelB r) (n₁.properties.getD []) (n₂.properties.getD []) &&
+  listRelB (keyRelB r) (n₁.patternProperties.getD []) (n₂.patternProperties.getD []) &&
+  optRelB r n₁.additionalProperties n₂.additionalProperties && optRelB r n₁.propertyNames n₂.propertyNames &&
+  optRelB r n₁.unevaluatedProperties n₂.unevaluatedProperties &&
+  listRelB (keyRelB r) (n₁.dependentSchemas.getD []) (n₂.dependentSchemas.getD []) &&
+  listRelB (keyRelB r) (n₁.dependencySchemas.getD []) (n₂.dependencySchemas.getD [])
+
+theorem NodeSim.of_check {r : NodeId → NodeId → Bool} {n₁ n₂ : Node} (hs : scalarView n₁ = scalarView n₂)
+    (h : childSimB r n₁ n₂ = true) : NodeSim (fun a b => r a b = true) n₁ n₂ := by
+  simp only [childSimB, Bool.and_eq_true] at h
+  obtain ⟨⟨⟨⟨⟨⟨⟨⟨⟨⟨⟨⟨⟨⟨⟨⟨⟨⟨⟨h1, h2⟩, h3⟩, h4⟩, h5⟩, h6⟩, h7⟩, h8⟩, h9⟩, h10⟩, h11⟩, h12⟩, h13⟩, h14⟩, h15⟩, h16⟩, h17⟩,
+    h18⟩, h19⟩, h20⟩ := h
+  have id' : ∀ a b, r a b = true → (fun a b => r a b = true) a b := fun _ _ h => h
+  have hl : ∀ {l l' : List NodeId}, listRelB r l l' = true → ListRel (fun a b => r a b = true) l l' :=
+    fun h => listRelB_sound id' h
+  have hk : ∀ {l l' : List (String × NodeId)}, listRelB (keyRelB r) l l' = true →
+      ListRel (KeyRel fun a b => r a b = true) l l' := fun h => listRelB_sound keyRelB_sound h
+  have ho : ∀ {o o' : Option NodeId}, optRelB r o o' = true → OptRel (fun a b => r a b = true) o o' :=
+    fun h => optRelB_sound id' h
+  have hol : ∀ {o o' : Option (List NodeId)}, optRelB (listRelB r) o o' = true →
+      OptRel (ListRel fun a b => r a b = true) o o' := fun h => optRelB_sound (fun _ _ h => hl h) h
+  exact {
+    scal := hs
+    allOf := hl h1
+    anyOf := hol h2
+    oneOf := hol h3
+    not := ho h4
+    if_ := ho h5
+    then_ := ho h6
+    else_ := ho h7
+    prefixItems := hl h8
+    items := ho h9
+    itemsArray := hol h10
+    additionalItems := ho h11
+    contains := ho h12
+    unevaluatedItems := ho h13
+    properties := fun k => Go.lookup_rel k (hk h14)
+    patternProperties := hk h15
+    additionalProperties := ho h16
+    propertyNames := ho h17
+    unevaluatedProperties := ho h18
+    dependentSchemas := hk h19
+    dependencySchemas := hk h20 }
+
+/-! ## The hypotheses are satisfiable on non-trivial data -/
+
+/-- one schema — with a `$ref` and a `$dynamicRef` —, stored twice at different ids, in a different order -/
+def exSt₁ : Store := #[
+  { type := "object", ref := "#/$defs/len", properties := some [("a", 1)], defs := some [("len", 2)],
+    dynamicRef := "#d", required := some ["a"] },
+  { type := "string" },
+  { minProperties := some 1, dynamicAnchor := "d" }]
+
+def exSt₂ : Store := #[
+  { minProperties := some 1, dynamicAnchor := "d" },
+  {},
+  { type := "string" },
+  { type := "object", ref := "#/$defs/len", properties := some [("a", 2)], defs := some [("len", 0)],
+    dynamicRef := "#d", required := some ["a"] }]
+
+def exEnv₁ : Spec.Env :=
+  { st := exSt₁, draft := .d2020, refTarget := fun s => if s = 0 then some 2 else none,
+    dynInitial := fun s => if s = 0 then some 2 else none, dynName := fun s => if s = 0 then "d" else "",
+    resource := fun _ => some 0, dynDecl := fun r name => if r = 0 ∧ name = "d" then some 2 else none,
+    reMatch := fun _ _ => false }
+
+def exEnv₂ : Spec.Env :=
+  { st := exSt₂, draft := .d2020, refTarget := fun s => if s = 3 then some 0 else none,
+    dynInitial := fun s => if s = 3 then some 0 else none, dynName := fun s => if s = 3 then "d" else "",
+    resource := fun _ => some 3, dynDecl := fun r name => if r = 3 ∧ name = "d" then some 0 else none,
+    reMatch := fun _ _ => false }
+
+def exR (a b : NodeId) : Bool := (a == 0 && b == 3) || (a == 1 && b == 2) || (a == 2 && b == 0)
+
+theorem exR_cases {a b : NodeId} (h : exR a b = true) : (a = 0 ∧ b = 3) ∨ (a = 1 ∧ b = 2) ∨ (a = 2 ∧ b = 0) := by
+  simpa only [exR, Bool.or_eq_true, Bool.and_eq_true, beq_iff_eq, or_assoc] using h
+
+theorem exEnvSim : EnvSim (fun a b => exR a b = true) exEnv₁ exEnv₂ := by
+  refine TablesSim.toEnvSim ⟨?_, ?_, ?_, ?_, ?_⟩ rfl rfl ?_
+  · intro a b h
+    rcases exR_cases h with ⟨rfl, rfl⟩ | ⟨rfl, rfl⟩ | ⟨rfl, rfl⟩
+    · show exR 2 0 = true
+      decide
+    · trivial
+    · trivial
+  · intro a b h
+    rcases exR_cases h with ⟨rfl, rfl⟩ | ⟨rfl, rfl⟩ | ⟨rfl, rfl⟩
+    · show exR 2 0 = true
+      decide
+    · trivial
+    · trivial
+  · intro a b h
+    rcases exR_cases h with ⟨rfl, rfl⟩ | ⟨rfl, rfl⟩ | ⟨rfl, rfl⟩ <;> rfl
+  · intro a b _
+    show exR 0 3 = true
+    decide
+  · intro r₁ r₂ name h
+    rcases exR_cases h with ⟨rfl, rfl⟩ | ⟨rfl, rfl⟩ | ⟨rfl, rfl⟩
+    · by_cases hn : name = "d"
+      · subst hn
+        show exR 2 0 = true
+        decide
+      · show OptRel _ (if 0 = 0 ∧ name = "d" then some 2 else none) (if 3 = 3 ∧ name = "d" then some 0 else none)
+        rw [if_neg (fun h => hn h.2), if_neg (fun h => hn h.2)]
+        trivial
+    · trivial
+    · trivial
+  · intro a b h
+    rcases exR_cases h with ⟨rfl, rfl⟩ | ⟨rfl, rfl⟩ | ⟨rfl, rfl⟩
+    · exact NodeSim.of_check (n₁ := exSt₁[0]) (n₂ := exSt₂[3]) rfl (by decide)
+    · exact NodeSim.of_check (n₁ := exSt₁[1]) (n₂ := exSt₂[2]) rfl (by decide)
+    · exact NodeSim.of_check (n₁ := exSt₁[2]) (n₂ := exSt₂[0]) rfl (by decide)
+
+/-- `evalFuel_sim` applied: the two copies give every instance the same result -/
+example (fuel : Nat) (j : Json) : Spec.evalFuel exEnv₁ fuel [] 0 j = Spec.evalFuel exEnv₂ fuel [] 3 j :=
+  evalFuel_sim exEnvSim fuel .nil (by decide) j
+
+/-- … and these results are defined and not all the same: the `$ref` (to `minProperties: 1`), the `$dynamicRef`
+    (resolved through the dynamic scope to the same schema), `required` and `properties` are all exercised -/
+example : Spec.valid exEnv₁ 3 0 (.obj [("a", .str "x")]) = some true := by decide
+example : Spec.valid exEnv₂ 3 3 (.obj [("a", .str "x")]) = some true := by decide
+example : Spec.valid exEnv₁ 3 0 (.obj [("a", .num 1)]) = some false := by decide
+example : Spec.valid exEnv₁ 3 0 (.obj []) = some false := by decide
+
 end Iso
 end JSV
